@@ -583,6 +583,9 @@ protected:
 				setinf(s);
 				return *this;
 			}
+			// every other payload is a NaN as well (quiet when the most significant fraction bit is set)
+			setnan();
+			return *this;
 		}
 		if (v == 0.0) {
 			setzero();
